@@ -89,14 +89,19 @@ L_BlockTime(b) ==
     /\ lq' = [lq EXCEPT !.st = "ins"]
     /\ UNCHANGED <<chain, cfg, pending, tried, pl, hq, hs, rs, fwd, life>>
 
+\* The insertion takes pendingMu, so it happens before or after a scan, never inside one.  (A scan that has
+\* been announced but has not looked at anything yet has not necessarily taken the lock: inserting then is
+\* the same as inserting just before it.)
 L_Insert ==
-    /\ lq # Nil /\ lq.st = "ins" /\ hs = Nil
+    /\ lq # Nil /\ lq.st = "ins"
+    /\ IF hs = Nil THEN TRUE ELSE hs.seen = {} /\ hs.fwd = Nil
     /\ lq' = Nil
+    /\ hs' = IF hs = Nil THEN Nil ELSE [hs EXCEPT !.start = @ \cup {lq.e}]
     /\ IF Key(lq.e) \in Keys(pending)
        THEN UNCHANGED <<pending, life>>
        ELSE /\ pending' = pending \cup {lq.e}
             /\ life' = Put(life, Key(lq.e), [fs |-> 0, deep |-> FALSE, stable |-> InItsBlock(lq.e), err |-> FALSE])
-    /\ UNCHANGED <<chain, cfg, tried, pl, hq, hs, rs, fwd>>
+    /\ UNCHANGED <<chain, cfg, tried, pl, hq, rs, fwd>>
 
 ---------------------------------------------------------------------------
 \* B: the block poller
